@@ -63,11 +63,12 @@ class VecV:
 
 
 class MapV:
-    __slots__ = ('keys', 'vals')
+    __slots__ = ('keys', 'vals', 'hashed')
 
     def __init__(self):
         self.keys = []
         self.vals = []
+        self.hashed = False
 
 
 class Ref:
@@ -231,6 +232,10 @@ class Engine:
             self.path_steps = 0
             self.merge_seq = 0
             self.merge_ctx = ()
+            self.stats['env_reads_total'] = self.stats.get('env_reads_total', 0) + self.env_reads
+            self.stats['host_reads_total'] = self.stats.get('host_reads_total', 0) + self.host_reads
+            self.env_reads = 0
+            self.host_reads = 0
             try:
                 driver(self)
                 self.flush_checks()
@@ -574,7 +579,12 @@ class Engine:
                 return len(v.items)
             raise Unsupported('unop ' + rv.op)
         if isinstance(rv, Cast):
-            return self.operand(frame, rv.a)
+            v = self.operand(frame, rv.a)
+            if isinstance(v, Ref) and re.match(r'^(usize|u64|isize|i64)$', rv.ty.strip()):
+                # address observed as an integer: an environment value (C19)
+                self.env_reads += 1
+                return self.fresh_int('env_addr_%d' % self.env_reads, 0, 2 ** 48)
+            return v
         if isinstance(rv, Tuple):
             return Agg('tuple', None, [self.operand(frame, x) for x in rv.ops])
         if isinstance(rv, Array):
